@@ -134,7 +134,10 @@ def judgeSeqs (f : List String) (spec : String) (ss : List Str) (out : List Stri
       let tableSame := match k with
         | .dflt n => canonTable (parseTable reported) == canonTable (getCodonTable n)
         | _ => true
-      let corr := outs == model && tableSame
+      -- the empty string is outside the quantifier: for an EMPTY input / piece `err` and `ok ""` are identified; all else exact
+      let sameOut (s : Str) (o m : List String) : Bool :=
+        o == m || (s.isEmpty && (o == ["err", ""] || o == ["ok", ""]) && (m == ["err", ""] || m == ["ok", ""]))
+      let corr := outs.length == model.length && ((ss.zip (outs.zip model)).all fun (s, o, m) => sameOut s o m) && tableSame
       let wf := decide (WFTable t)
       let emptyT := emptyTable t && k == .txt
       let foreign := !(ss.all fun s => decide (Acgt s))
@@ -233,7 +236,7 @@ def judgeHist (spec : String) (steps : List String) (out : List String) : Verdic
                 match specTranslation t .txt s with
                 | some x => ["ok", String.ofList x]
                 | none => ["?"]
-              go fuel more rest' (corr && o == m) (j && o == expect) (wf && decide (WFTable t) && decide (Acgt s) && !s.isEmpty)
+              go fuel more rest' (corr && (o == m || (s.isEmpty && o == ["ok", ""]))) (j && o == expect) (wf && decide (WFTable t) && decide (Acgt s) && !s.isEmpty)
                 (if o == m && o == expect then detail else lineOf (m ++ ["expect"] ++ expect))
             | _ => (false, false, wf, "reply shape")
           else (false, false, wf, "bad step")
